@@ -71,6 +71,8 @@ func hasLoops(fn *ssa.Function) bool {
 
 var inlinePkgs = map[string]bool{
 	"encoding/binary": true,
+	"strings":         true,
+	"internal/stringslite": true,
 }
 
 // execCall handles a call; returns result values (len = number of results).
